@@ -199,3 +199,22 @@ Definition check_schema_flush_gen (f1 f2 f3 f4 : bool) (progs : list (list Schem
        && forallb (fun t => match SchemaFlush.todo t with [] => true | _ => false end) (SchemaFlush.threads s) then 0 else 1),
    schema_oracle os final).
 Definition check_schema_flush := check_schema_flush_gen true true true true.
+
+(* ---- field ids of one metric: the answers to a history of field creations (Some id / None = too many fields; None for a
+   Reopen) against the model; oracle on the answers alone: two different names never got the same id, one name never two ---- *)
+From LinDBV.C09 Require Fields.
+Definition ores_eqb (a b : option nat) : bool :=
+  match a, b with Some x, Some y => x =? y | None, None => true | _, _ => false end.
+Fixpoint oress_eqb (a b : list (option nat)) : bool :=
+  match a, b with [], [] => true | x :: a', y :: b' => ores_eqb x y && oress_eqb a' b' | _, _ => false end.
+Fixpoint given (ops : list Fields.fop) (obs : list (option nat)) : list (nat * nat) :=
+  match ops, obs with
+  | Fields.GenField nm :: ops', Some i :: obs' => (nm, i) :: given ops' obs'
+  | _ :: ops', _ :: obs' => given ops' obs'
+  | _, _ => []
+  end.
+Definition one_to_one_pairs (l : list (nat * nat)) : bool :=
+  forallb (fun p => forallb (fun q => Bool.eqb (fst p =? fst q) (snd p =? snd q)) l) l.
+Definition check_fields (limit : nat) (ops : list Fields.fop) (obs : list (option nat)) : nat * nat :=
+  (if oress_eqb (Fields.fresults limit true [] ops) obs then 0 else 1,
+   if one_to_one_pairs (given ops obs) then 0 else 1).
